@@ -31,7 +31,27 @@ def m_shift(tier):
 LAYOUTS_Q = ["heap1n", "heap3n", "heap12d", "heap24d", "heap0d"]
 LAYOUTS_T = ["heap1n", "heap2d", "heap3n", "heap8d", "heap12d", "heap16d", "heap24d", "heap32d", "heap64n", "heap160", "heap160a32", "heap0d", "heap0n"]
 
+def m_cap(tier):
+    # one vector: every (len, capacity) state up to the bound x every capacity request 0..bound and near usize::MAX
+    return dict(cfg="CfgHeapCap", alpha=["push", "pop", "clear", "cap", "recreate"], MaxLen=3 if tier == "quick" else 4, MaxLenB=0,
+                MaxCap=6 if tier == "quick" else 9, MaxExt=0, srcs=["typed", "raw"], sinks=["drop"], OneHandle=True, timeout=6000)
+def m_fixed(tier):
+    # fixed capacity 3 (Stack<3*size>, StackN<3,..>): operations whose result length is <= cap, == cap and == cap+1
+    return dict(cfg="CfgFixed3", alpha=["push", "insert", "pop", "remove", "swap_remove", "clear", "drain", "splice", "ext_drop", "forget"],
+                MaxLen=3, MaxLenB=3, MaxExt=1, MaxRepl=2, OneHandle=True, forms=["x..y"], srcs=["wrapper", "raw", "typed"], timeout=6000)
+def m_fixed2(tier):
+    return dict(m_fixed(tier), cfg="CfgFixed2", MaxLen=2, MaxLenB=2)
+
+def m_outlive(tier):
+    # items yielded by drain/splice that outlive their iterator (recorded finding): small dedicated model
+    return dict(alpha=["push", "drain", "splice", "keep", "outlive", "forget"], MaxLen=2 if tier == "quick" else 3, MaxLenB=1, MaxExt=1, MaxOut=1,
+                MaxRepl=1, OneHandle=True, forms=["x..y"], srcs=["typed", "wrapper"], timeout=6000)
+
 MODELS = {
+    "outlive": m_outlive,
+    "cap": m_cap,
+    "fixed": m_fixed,
+    "fixed2": m_fixed2,
     "shift": m_shift,
     "xchg": m_xchg,
     "elem": m_elem,
@@ -53,9 +73,9 @@ def c01(tier):
 def c02(tier):
     if tier == "quick":
         return [dict(model="range", configs=cfgs(["heap8d"], (R, D)) + cfgs(["heap3n", "heap0d"], (R,))),
-                dict(model="shift", configs=cfgs(LAYOUTS_Q, (R,)))]
+                dict(model="shift", configs=cfgs(LAYOUTS_Q, (R,))), dict(model="outlive", configs=cfgs(["heap8d"], (R,)))]
     return [dict(model="range", configs=cfgs(["heap8d", "heap3n", "heap160", "heap0d", "heap12d"], (R, D))),
-            dict(model="shift", configs=cfgs(LAYOUTS_T, (R, D)))]
+            dict(model="shift", configs=cfgs(LAYOUTS_T, (R, D))), dict(model="outlive", configs=cfgs(["heap8d", "heap160"], (R, D)))]
 def c14(tier):
     if tier == "quick":
         return [dict(model="iter", configs=cfgs(["heap8d"], (R,))), dict(model="range", configs=cfgs(["heap8d"], (R,)))]
@@ -82,7 +102,59 @@ def c06(tier):
         return [dict(model="elem", faults=True, configs=cfgs(["heap8d"], (R,))), dict(model="range", faults=True, configs=cfgs(["heap8d"], (R,)))]
     return [dict(model="elem", faults=True, configs=cfgs(["heap8d", "heap160"], (R, D))), dict(model="range", faults=True, configs=cfgs(["heap8d", "heap160"], (R, D)))]
 
+def c10(tier):
+    if tier == "quick":
+        return [dict(model="cap", configs=cfgs(["heap8d", "heap0d", "fence8d", "heap1n"], (R,)) + cfgs(["heap3n"], (D,)))]
+    return [dict(model="cap", configs=cfgs(["heap8d", "heap0d", "heap0n", "heap3n", "heap160", "fence8d", "fence3n", "fence0d", "fence160"], (R, D)))]
+def c11(tier):
+    if tier == "quick":
+        return [dict(model="fixed", configs=cfgs(["stack24x3", "stackn3"], (R,))), dict(model="elem", configs=cfgs(["stack24x3"], (R,)))]
+    return [dict(model="fixed", configs=cfgs(["stack24x3", "stackn3", "stack8x3m", "stack8x3p"], (R, D))),
+            dict(model="fixed2", configs=cfgs(["stack8x2p", "stackn2"], (R, D))),
+            dict(model="elem", configs=cfgs(["stack24x3", "stackn3"], (R, D))), dict(model="range", configs=cfgs(["stack24x3"], (R,)))]
+def c05(tier):
+    if tier == "quick":
+        return [dict(model="elem", configs=cfgs(["fence8d", "fence3n"], (R,))), dict(model="range", configs=cfgs(["fence8d"], (R,))),
+                dict(model="shift", configs=cfgs(["fence24d", "fence3n", "fence160"], (R,))), dict(model="cap", configs=cfgs(["fence8d", "fence0d"], (R,)))]
+    return [dict(model="elem", configs=cfgs(["fence8d", "fence3n", "fence24d", "fence160", "fence0d", "heap8d"], (R, D))),
+            dict(model="range", configs=cfgs(["fence8d", "fence3n", "fence24d", "fence160", "heap8d"], (R, D))),
+            dict(model="shift", configs=cfgs(["fence8d", "fence3n", "fence24d", "fence160", "fence0d"], (R, D))),
+            dict(model="cap", configs=cfgs(["fence8d", "fence3n", "fence0d", "fence160"], (R, D)))]
+def c18(tier):
+    if tier == "quick":
+        return [dict(model="cap", configs=cfgs(["heap8d", "heap0d", "heap3n", "heap1n"], (R,))), dict(model="elem", configs=cfgs(["heap8d"], (R,))),
+                dict(model="range", configs=cfgs(["heap8d"], (R,)))]
+    return [dict(model="cap", configs=cfgs(["heap8d", "heap0d", "heap0n", "heap3n", "heap160", "heap160a32", "heap64n"], (R, D))),
+            dict(model="elem", configs=cfgs(["heap8d", "heap160a32", "heap3n"], (R, D))), dict(model="range", configs=cfgs(["heap8d", "heap160a32"], (R, D))),
+            dict(model="shift", configs=cfgs(LAYOUTS_T, (R,)))]
+
 PLAN = {
+    "C10": dict(campaigns=c10, level="model_checking",
+                claim="Every (len, capacity) state of one vector up to the bound x every reserve / reserve_exact / shrink_to_fit / shrink_to / "
+                      "with_capacity request 0..bound and at usize::MAX-2..usize::MAX (erased and typed), interleaved with push/pop/clear, is "
+                      "replayed on Heap and on the instrumented relocating backend; TLC judges len<=capacity, the >= promises, exactness of "
+                      "heap shrinking, panics for unrepresentable requests, and that a satisfied request touches neither capacity, block nor allocator.",
+                rule="cases = all transitions of the capacity model; non-trivial = a capacity call at depth >= 2"),
+    "C11": dict(campaigns=c11, level="model_checking",
+                claim="Fixed-capacity model (capacity 3 / 2): every element-wise, drain and splice transition whose result length is below, at and one "
+                      "above the capacity, replayed on Stack<SIZE> and StackN<N,SIZE>; TLC judges the capacity formula, behaviour identical to the "
+                      "contract used for the heap, panic-and-unchanged for push/insert beyond capacity, validity after splice beyond it, and zero "
+                      "allocator events (instrumented global allocator) during every call.",
+                rule="cases = all transitions of the fixed-capacity and elem models on stack backends; non-trivial = any operation at depth >= 2"),
+    "C05": dict(campaigns=c05, level="model_checking",
+                claim="All transitions of the element-wise, range, layout-sweep and capacity models replayed on a user-defined backend that relocates on "
+                      "every capacity change, places every block against an inaccessible page, poison-fills fresh capacity, keeps released blocks "
+                      "inaccessible and guards the front with canaries (and on Heap under a global allocator with the same features): a fault "
+                      "kills the replay process and is reported with the running case; TLC judges decoded contents (poison or stale bytes decode as "
+                      "garbage), block size = capacity x element size, build-once-with-layout and release-once.",
+                rule="cases = all transitions of the listed models on fence/heap configurations; non-trivial = any operation at depth >= 2",
+                assumptions=["a read inside the current capacity of a never-written slot whose value is then discarded is not observable (DESIGN.md section 9)"]),
+    "C18": dict(campaigns=c18, level="model_checking",
+                claim="All transitions of the capacity, element-wise and range models on Heap under the instrumented global allocator: every "
+                      "dealloc/realloc is checked against the live block's layout, every request for layout validity, after every step the block "
+                      "found at the vector's base pointer must have exactly capacity x size bytes and the element alignment (none when that is zero), "
+                      "live blocks = vectors with non-zero capacity, and after teardown no block is left.",
+                rule="cases = all transitions of the listed models on heap configurations; non-trivial = an operation at depth >= 2"),
     "C06": dict(campaigns=c06, level="fault_enumeration",
                 claim="For every transition of the bounded element-wise and range models whose fault-free replay invoked user code N>=1 times "
                       "(element Drop, element Clone, replacement-iterator next), the case is re-run N times with the k-th invocation panicking; "
